@@ -27,6 +27,7 @@ type Ev struct {
 	Last bool             `json:"last,omitempty"`
 	Read *ReadPkt         `json:"read,omitempty"`
 	Probe *Probe          `json:"probe,omitempty"`
+	hasOp bool
 }
 
 // History is the recorded execution.
@@ -46,7 +47,7 @@ func (h *History) add(e *Ev) int {
 	defer h.mu.Unlock()
 	e.Seq = len(h.Evs)
 	e.VT = time.Since(h.start).Milliseconds()
-	if e.Kind != "op" && e.Op == 0 {
+	if !e.hasOp {
 		e.Op = -1
 	}
 	h.Evs = append(h.Evs, e)
